@@ -109,12 +109,26 @@ Recovered ==
            (IF e.v > 0 /\ e.v \notin DOMAIN vers THEN {<<"C09", "recovered_unknown_version">>} ELSE {}) \cup
            (IF e.v = 0 /\ (Live(ix) # {} \/ ix.nodes # EmptyFn \/ ix.meta # NoMeta) THEN {<<"C09", "data_without_a_commit">>} ELSE {}) \cup
            (IF e.v > 0 THEN CompleteDefects(e, ix, "C09") ELSE {}) \cup
-           (IF e.foreign # 0 THEN {<<"C09", "stray_keys_after_recovery">>} ELSE {})
+           (IF e.foreign # 0 THEN {<<"C09", "stray_keys_after_recovery">>} ELSE {}) \cup
+           (IF e.tmp_left # 0 THEN {<<"C09", "files_left_in_the_temp_directory_by_the_killed_process">>} ELSE {})
+     IN Report(e, bad)
+  /\ l' = l + 1 /\ UNCHANGED <<vers, started, finished, lo, hi, seen>>
+
+\* a new process continued the history after the recovery: it must reach the golden run's last version
+Resumed ==
+  /\ IsEv("C.Resumed")
+  /\ LET e == Rec[l]
+         ix == JIndex(e.st)
+         bad ==
+           (IF ~e.exit_ok THEN {<<"C09", "process_resumed_after_the_crash_failed">>} ELSE {}) \cup
+           (IF e.v # e.expect THEN {<<"C09", "resumed_history_did_not_reach_its_last_version">>} ELSE {}) \cup
+           (IF e.v \in DOMAIN vers /\ ix # vers[e.v] THEN {<<"C09", "state_after_resuming_differs_from_the_uninterrupted_run">>} ELSE {}) \cup
+           (IF e.v > 0 THEN CompleteDefects(e, ix, "C09") ELSE {})
      IN Report(e, bad)
   /\ l' = l + 1 /\ UNCHANGED <<vers, started, finished, lo, hi, seen>>
 
 TraceInit == l = 1 /\ vers = <<>> /\ started = {} /\ finished = {} /\ lo = <<>> /\ hi = <<>> /\ seen = <<>>
-TraceNext == Reset \/ CommitCall \/ CommitReturn \/ WAbort \/ BeginCall \/ BeginReturn \/ Observe \/ REnd \/ Version \/ Recovered
+TraceNext == Reset \/ CommitCall \/ CommitReturn \/ WAbort \/ BeginCall \/ BeginReturn \/ Observe \/ REnd \/ Version \/ Recovered \/ Resumed
 TraceSpec == TraceInit /\ [][TraceNext]_tvars
 TraceAccepted ==
   LET d == TLCGet("stats").diameter IN
